@@ -89,6 +89,15 @@ func fv(v reflect.Value, depth int) string {
 		c := v.Complex()
 		return "(" + ff(real(c), 64) + "," + ff(imag(c), 64) + "i)"
 	case reflect.String:
+		if s := v.String(); len(s) > 96 {
+			// long strings (generated programs may double a string in a loop): prefix,
+			// suffix, length and a checksum identify the value without megabyte traces
+			var sum uint32
+			for i := 0; i < len(s); i++ {
+				sum = sum*31 + uint32(s[i])
+			}
+			return fmt.Sprintf("%q...%q(len=%d,sum=%08x)", s[:32], s[len(s)-16:], len(s), sum)
+		}
 		return fmt.Sprintf("%q", v.String())
 	case reflect.Slice:
 		if v.IsNil() {
